@@ -2,7 +2,7 @@
 C01 — the whitelisted-fee list of PolicyContract (policy.go: setWhitelistFeeContract 928-980,
 removeWhitelistFeeContract 886-926, CleanWhitelist 859-884, fillCacheFromDAO 421-446, WhitelistedFee 845-857),
 as written: a small component of its own next to Model/Ledger/Natives.lean. Keys are (contract, method offset),
-here (contract id, method id); values are fees.
+here (contract id, method id); values are fees. (Since fix cb24446 `set` overwrites an existing cache entry.)
 -/
 namespace NeoModel.Ledger.Whitelist
 
@@ -32,11 +32,9 @@ deriving DecidableEq, Repr
 def step (s : State) : Op → Option State
   | .set k fee =>
     if fee < 0 then none else
-    -- storage is always written; the cache only gets a NEW entry (`if !ok { Insert }`), an existing one keeps its fee
-    some { store := put s.store k fee,
-           cache := match get s.cache k with
-             | some _ => s.cache
-             | none => put s.cache k fee }
+    -- storage and cache are both written: a new entry is inserted, an existing one overwritten
+    -- (`if !ok { Insert } else { cache.whitelistedContracts[i] = c }`, fix cb24446)
+    some { store := put s.store k fee, cache := put s.cache k fee }
   | .remove k =>
     match get s.cache k with
     | none => none
@@ -56,13 +54,5 @@ def empty : State := { store := [], cache := [] }
 
 /-- lookups agree (the lists may be ordered differently) -/
 def Coherent (s : State) : Prop := ∀ k, get s.cache k = get s.store k
-
-/-- an operation sequence never sets a key that is already cached -/
-def freshSets (s : State) : List Op → Bool
-  | [] => true
-  | o :: os =>
-    (match o with
-      | .set k _ => (get s.cache k).isNone
-      | _ => true) && freshSets ((step s o).getD s) os
 
 end NeoModel.Ledger.Whitelist
